@@ -697,7 +697,7 @@ type bpMiss struct {
 
 type bpResult struct {
 	must, matched, ambiguous, wrongLine int
-	misses                             []bpMiss
+	misses                              []bpMiss
 }
 
 func (s *session) checkBreakpoints() bpResult {
